@@ -58,8 +58,13 @@ class RobotsTxtChecker(object):
             raise NotInPoolError()
 
     @asyncio.coroutine
-    def fetch_robots_txt(self, request: Request, file=None):
+    def fetch_robots_txt(self, request: Request, file=None,
+                         redirect_filter=None):
         '''Fetch the robots.txt file for the request.
+
+        Args:
+            redirect_filter: A function that is given the URLInfo of a
+                redirect target and returns whether it may be fetched.
 
         Coroutine.
         '''
@@ -78,7 +83,19 @@ class RobotsTxtChecker(object):
             # The context manager returns the connection to the pool
             # whatever the outcome of the fetch is.
             with session:
+                is_first = True
+
                 while not session.done():
+                    if not is_first and redirect_filter and \
+                            not redirect_filter(
+                                session.next_request().url_info):
+                        # Only robots.txt itself is exempt from the filters
+                        _logger.debug('Redirect of robots.txt not accepted.')
+                        self._accept_as_blank(url_info)
+
+                        return
+
+                    is_first = False
                     wpull.util.truncate_file(file.name)
 
                     try:
@@ -100,12 +117,14 @@ class RobotsTxtChecker(object):
                 self._accept_as_blank(url_info)
 
     @asyncio.coroutine
-    def can_fetch(self, request: Request, file=None) -> bool:
+    def can_fetch(self, request: Request, file=None,
+                  redirect_filter=None) -> bool:
         '''Return whether the request can fetched.
 
         Args:
             request: Request.
             file: A file object to where the robots.txt contents are written.
+            redirect_filter: See :meth:`fetch_robots_txt`.
 
         Coroutine.
         '''
@@ -114,7 +133,8 @@ class RobotsTxtChecker(object):
         except NotInPoolError:
             pass
 
-        yield from self.fetch_robots_txt(request, file=file)
+        yield from self.fetch_robots_txt(request, file=file,
+                                         redirect_filter=redirect_filter)
 
         return self.can_fetch_pool(request)
 
